@@ -135,12 +135,19 @@ static void stream_decode(ZSTD_DCtx* d, const uint8_t* src, size_t n, size_t cap
     canary(&out); gb_free(&out);
 }
 
+static void exercise(vrng* rp, const item* it, uint8_t* m, size_t n);
 static void run_case(long idx)
 {
     vrng r = vr_make(V.seed, 103, (uint64_t)idx);
     const item* it = &g_corpus[vr_u64(&r, g_nCorpus)];
     if (g_nLegacy && vr_chance(&r, 1, 8)) it = &g_corpus[g_legacyIdx[vr_u64(&r, g_nLegacy)]];     /* legacy decoders get a fixed share */
     uint8_t* m; size_t n; g_kind = mutate(&r, it, &m, &n); g_origin = it->origin;
+    exercise(&r, it, m, n);
+}
+/* every decode / inspection entry point on the bytes m[0..n) (freed here); `it` = the frame they were derived from (capacity guesses, dictionary) */
+static void exercise(vrng* rp, const item* it, uint8_t* m, size_t n)
+{
+    vrng r = *rp;
     if (!strncmp(it->origin, "legacy", 6) && n > 12 && vr_chance(&r, 1, 2)) {
         /* legacy frame layouts (v0.5-v0.7): descriptor / window byte after the magic, 3-byte block headers (type in the top 2 bits, 19..22-bit size) */
         switch (vr_u(&r, 5)) {
@@ -162,7 +169,9 @@ static void run_case(long idx)
             if (I.nb_blocks) { size_t const b = vr_u64(&r, I.nb_blocks); size_t before = 0; for (size_t i = 0; i < b; i++) before += I.blocks[i].rsize;
                 if (I.blocks[b].type == 2) { cap = before + fh.blockSizeMax + 32 + I.blocks[b].lit_rsize + vr_u(&r, 72) - 4; v_stat("caps_at_literal_buffer_edge", 1); } }
             refdec_info_free(&I); refdec_dict_free(rd); free(tmp); } }
+#ifndef H_C03_FUZZ
     v_budget(5.0 + 2e-6 * (double)(n + cap) * 40);       /* all entry points together; linear in sizes */
+#endif
     v_stat("inputs", 1); v_cell("mutation", "%s|%s", g_origin, g_kind);
     const uint8_t* dict = it->dict; size_t dl = it->dl; uint8_t rdict[300]; if (!dict && vr_chance(&r, 1, 4)) { dl = 8 + vr_u(&r, 292); vr_fill(&r, rdict, dl); if (vr_chance(&r, 1, 2)) { rdict[0] = 0x37; rdict[1] = 0xA4; rdict[2] = 0x30; rdict[3] = 0xEC; } dict = rdict; }
     ZSTD_DCtx* d = ZSTD_createDCtx();
@@ -222,12 +231,43 @@ static void run_case(long idx)
     ZSTD_freeDCtx(d); gb_free(&src);
 }
 
+#ifdef H_C03_FUZZ
+/* coverage-guided stage (libFuzzer, clang ASan+UBSan build): the input is the byte string presented as compressed data; its last byte selects
+ * whether a dictionary accompanies it. Every violation (sanitizer report or monitor verdict) aborts, so that libFuzzer keeps the input as artifact. */
+static uint8_t g_fzdict[4096]; static size_t g_fzdictLen;
+int LLVMFuzzerInitialize(int* argc, char*** argv);
+int LLVMFuzzerInitialize(int* argc, char*** argv)
+{
+    (void)argc; (void)argv; V.seed = 1; V.casefd = -1; V.max_samples = 0; V.progname = "h_c03fuzz"; vp_trace_on = 0; setvbuf(stdout, NULL, _IOFBF, 1 << 16);
+    build_fdict(); if (g_fdictLen) { g_fzdictLen = V_MIN(g_fdictLen, sizeof g_fzdict); memcpy(g_fzdict, g_fdict, g_fzdictLen); }
+    return 0;
+}
+int LLVMFuzzerTestOneInput(const uint8_t* data, size_t size);
+int LLVMFuzzerTestOneInput(const uint8_t* data, size_t size)
+{
+    if (size == 0) return 0;
+    int const withDict = data[size - 1] & 1; size--;                 /* last byte = flags, the rest is the untrusted input */
+    uint64_t h = 1469598103934665603ULL; for (size_t i = 0; i < size; i++) h = (h ^ data[i]) * 1099511628211ULL;
+    vrng r = vr_make(0xF022, 7, h);
+    item it; memset(&it, 0, sizeof it); it.p = (uint8_t*)data; it.n = size; it.origin = "fuzz"; g_kind = "libfuzzer"; g_origin = "fuzz";
+    if (withDict && g_fzdictLen) { it.dict = g_fzdict; it.dl = g_fzdictLen; }
+    uint8_t* m = (uint8_t*)malloc(size + 1); memcpy(m, data, size);
+    V.cur_case++; exercise(&r, &it, m, size);
+    return 0;
+}
+#else
 int main(int argc, char** argv)
 {
     v_init(argc, argv); vp_trace_on = 0;
     build_corpus(); build_fdict();
+    {   const char* dd = v_opt("dump-corpus", NULL);     /* seed corpus for the coverage-guided stage: the frames, plus one mutation of each */
+        if (dd) { for (size_t i = 0; i < g_nCorpus; i++) { if (g_corpus[i].n > (96u << 10)) continue; for (int k = 0; k < 2; k++) { char p[1200]; snprintf(p, sizeof p, "%s/s%04zu_%d", dd, i, k); FILE* f = fopen(p, "wb"); if (!f) return 2;
+                    if (k == 0) fwrite(g_corpus[i].p, 1, g_corpus[i].n, f); else { vrng r = vr_make(V.seed, 104, i); uint8_t* m; size_t n; (void)mutate(&r, &g_corpus[i], &m, &n); if (n > (96u << 10)) n = 96u << 10; fwrite(m, 1, n, f); free(m); }
+                    if (g_corpus[i].dict) fputc(1, f); else fputc(0, f); fclose(f); } }
+            printf("STAT\tcorpus_dumped\t%zu\n", g_nCorpus); return 0; } }
     if (g_nCorpus < 50) { fprintf(stderr, "corpus too small (%zu)\n", g_nCorpus); return 2; }
     {   char b[64]; snprintf(b, sizeof b, "%zu", g_nCorpus); v_cell("corpus_size", "%s", b); }
     for (long i = V.from; i < V.to; i++) { v_case(i); run_case(i); }
     return v_finish();
 }
+#endif
